@@ -52,6 +52,19 @@ Fixpoint zrange_aux (start : Z) (n : nat) : list Z :=
   match n with O => [] | S k => start :: zrange_aux (start + 1) k end.
 Definition zrange (lo hi : Z) : list Z := zrange_aux lo (Z.to_nat (hi - lo)).
 
+Fixpoint list_eqb_Z (a b : list Z) : bool :=
+  match a, b with
+  | [], [] => true
+  | x :: r, y :: t => (x =? y) && list_eqb_Z r t
+  | _, _ => false
+  end.
+Fixpoint list_eqb_LZ (a b : list (list Z)) : bool :=
+  match a, b with
+  | [], [] => true
+  | x :: r, y :: t => list_eqb_Z x y && list_eqb_LZ r t
+  | _, _ => false
+  end.
+
 (** ceiling division for positive divisors *)
 Definition cdiv (a b : Z) : Z := - ((- a) / b).
 
